@@ -119,8 +119,11 @@ def parseQuery (j : Json) : Except String Query := do
   let sort ← match j.getObjVal? "sort" with
     | .ok a => (← a.getArr?).toList.mapM (fun p => do
         let pa ← p.getArr?
-        pure ((← fromHex (← pa[0]!.getStr?)), (← pa[1]!.getInt?)))
+        -- `normalizeSortOptions`: any direction >= 0 is ascending
+        pure ((← fromHex (← pa[0]!.getStr?)), (if (← pa[1]!.getInt?) ≥ 0 then (1 : Int) else -1)))
     | .error _ => pure []
+  -- `Sort()` without options orders by `_id`
+  let sort := if (j.getObjVal? "sortDefault").isOk then [(idField, (1 : Int))] else sort
   return { coll, crit, skip, limit, sort }
 
 def parseUpd (j : Json) : Except String Upd := do
